@@ -94,6 +94,8 @@ type config struct {
 	ImmFlush bool   `json:"immediate_header_flush"`
 	SWFlush  int    `json:"sw_flush_every"`
 	Method   string `json:"method"`
+
+	data []byte // genData(DataSeed, DataLen), shared read-only by all executions of the configuration
 }
 
 func genData(seed int64, n int) []byte {
@@ -124,6 +126,7 @@ func genConfig(rnd *rand.Rand) config {
 		c.DataLen = 4000 + rnd.Intn(20000) // around and beyond the 4096 / 8192 buffers
 	}
 	c.DataSeed = rnd.Int63()
+	c.data = genData(c.DataSeed, c.DataLen)
 	nch := 1 + rnd.Intn(4)
 	for i := 0; i < nch; i++ {
 		switch rnd.Intn(4) {
@@ -164,7 +167,10 @@ func genConfig(rnd *rand.Rand) config {
 		c.SizeMode = 3
 		c.SWFlush = rnd.Intn(4)
 	}
-	c.BufSize = []int{16, 17, 64, 512, 4096, 4096, 8192, 65536}[rnd.Intn(8)]
+	c.BufSize = []int{16, 17, 64, 512, 4096, 4096, 8192, 1024}[rnd.Intn(8)]
+	if rnd.Intn(16) == 0 {
+		c.BufSize = 65536
+	}
 	c.EOFData = rnd.Intn(4) == 0
 	if rnd.Intn(10) == 0 {
 		c.ZeroAt = rnd.Intn(c.DataLen + 1)
@@ -236,7 +242,7 @@ func (discardLogger) Printf(string, ...any) {}
 
 // build returns the stream, its instrumentation (nil for stdlib readers) and the declared size.
 func (c *config) build(res *result) (io.Reader, *core, int) {
-	data := genData(c.DataSeed, c.DataLen)
+	data := c.data
 	res.expected = data
 	co := &core{data: data, chunks: c.Chunks, panicAt: c.PanicAt, errAt: c.ErrAt, eofData: c.EOFData, zeroAt: c.ZeroAt}
 	var s io.Reader
@@ -282,7 +288,7 @@ func (c *config) build(res *result) (io.Reader, *core, int) {
 }
 
 func (c *config) streamWriter(res *result) fasthttp.StreamWriter {
-	data := genData(c.DataSeed, c.DataLen)
+	data := c.data
 	res.expected, res.consistent = data, true
 	res.swDone = make(chan struct{})
 	return func(w *bufio.Writer) {
@@ -768,7 +774,7 @@ func TestC34(t *testing.T) {
 	r.Assume("SetBodyStreamWriter pipes are not instrumentable for Close counts; instead the StreamWriter function must have returned after the write/release (generous 30 s watchdog, inconclusive if it fires)")
 	r.Assume("the independent decoder and net/http are correct readers of RFC 9112 framing")
 
-	nCfg := r.N(7_000, 350_000)
+	nCfg := r.N(7_000, 100_000)
 	var swHung atomic.Int64
 	mon.Parallel(nCfg, 0, func(i int) {
 		if !r.Want(i) || swHung.Load() > 3 {
